@@ -56,7 +56,7 @@ func (p *prop) Run(line string) core.Outcome {
 	}
 	f := strings.Split(line, " ")
 	switch f[0] {
-	case "adapt", "madapt", "perm", "eqv", "leak", "site", "hist", "argidx", "bind", "rename", "sopts":
+	case "adapt", "madapt", "perm", "eqv", "leak", "site", "hist", "argidx", "bind", "rename", "sopts", "lnp":
 		// cases that run the adapter can die of a fatal (unrecoverable) Go error
 		switch noteCase(line) {
 		case "crash":
@@ -92,6 +92,14 @@ func (p *prop) Run(line string) core.Outcome {
 			if t, err := core.UnHex(f[1]); err == nil && core.Hex(t) == f[1] {
 				return runAdapt(line, t, f[0] == "madapt")
 			}
+		}
+	case "addr":
+		if len(f) == 2 {
+			return runAddr(line, f[1])
+		}
+	case "lnp":
+		if len(f) == 3 {
+			return runLnp(line, f[1], f[2])
 		}
 	case "sopts":
 		if len(f) == 3 {
